@@ -207,6 +207,10 @@ pub fn junk_line() -> BoxedStrategy<Vec<u8>> {
         3 => (hexd(0..12), prop_oneof![Just(vec![0x80u8]), Just(vec![0xBFu8]), Just(vec![0xC3u8]), Just(vec![0xE2u8, 0x82]), Just(vec![0xF0u8, 0x9F, 0x98]), Just(vec![0xC0u8, 0xAF]), Just(vec![0xFFu8]), Just(vec![0xFEu8, 0xFF]), proptest::collection::vec(0x80u8..=0xFF, 1..6)], hexd(0..12))
             .prop_map(|(a, bad, b)| { let mut v = a; v.extend(bad); v.extend(b); v })
             .prop_filter("digit count", |v| !matches!(v.iter().filter(|b| b.is_ascii_hexdigit()).count(), 14 | 28 | 26 | 40)),
+        // 40..200 bytes mixing ASCII, multi-byte characters and invalid bytes (never an accepted digit count)
+        3 => proptest::collection::vec(prop_oneof![4 => proptest::sample::select(vec!["g", "z", " ", ";", "*", "x", "G"]).prop_map(|s| s.as_bytes().to_vec()), 3 => proptest::sample::select(vec!["é", "Ω", "Ж", "😀", "٣", "Ａ"]).prop_map(|s| s.as_bytes().to_vec()), 2 => proptest::sample::select(vec![vec![0xFFu8], vec![0x80u8], vec![0xC3u8], vec![0xE2u8, 0x82]]), 1 => proptest::sample::select(vec!["a", "7", "F"]).prop_map(|s| s.as_bytes().to_vec())], 40..160)
+            .prop_map(|parts| parts.concat())
+            .prop_filter("digit count", |v| !matches!(v.iter().filter(|b| b.is_ascii_hexdigit()).count(), 14 | 28 | 26 | 40)),
         // lone CR inside text
         1 => (hexd(1..13), hexd(0..13)).prop_map(|(a, b)| { let mut v = a; v.push(b'\r'); v.extend(b); v }).prop_filter("digit count", |v| !matches!(v.iter().filter(|b| b.is_ascii_hexdigit()).count(), 14 | 28 | 26 | 40)),
         // truncated frames (a frame cut to 1..13 or 15..27 digits)
